@@ -292,8 +292,22 @@ def enc_policy(p, effect=None):
                      enc_kvs(p['context'])])
 
 
+class StrSub(str):
+    """a str subclass (an Enum-with-str-mixin member, a tagged string type): equal to and matched like its text"""
+
+
+EXOTIC_STR = [False]      # switched on by the checks of the string / regex checkers and of the plain guard
+
+
+def _exotic(v):
+    if EXOTIC_STR[0] and type(v) is str and len(v) % 3 == 1:
+        return StrSub(v)
+    return v
+
+
 def build_inquiry(q):
-    return Inquiry(resource=q['resource'], action=q['action'], subject=q['subject'], context=q['context'])
+    return Inquiry(resource=_exotic(q['resource']), action=_exotic(q['action']), subject=_exotic(q['subject']),
+                   context=q['context'])
 
 
 def enc_inquiry_obj(inq):
